@@ -129,6 +129,96 @@ def history (c : Cfg) (L : Layout) : RS → List (Bytes × Option Fault) → RS 
     (r.1, (a.cmds, a.res) :: r.2)
 
 
+
+/-! ## Type 1 / Type 2 with the repair of finding `t12-empty-after-unacknowledged-length-write`
+
+The repaired memory readers remember the unit of a write command that did not return (`_unconfirmed`): the unit
+is sent again at the next `synchronize()` even when cache and picture agree, and leaves the set when a write of
+it has been acknowledged.
+
+    if data != self._data_from_tag[i:i+u] or i in self._unconfirmed:
+        self._unconfirmed.add(i); self._tag.write(...); self._data_from_tag[i:i+u] = data
+        self._unconfirmed.discard(i)
+-/
+
+structure RSR where
+  tag : Bytes
+  belief : Bytes
+  cache : Bytes
+  dirty : List Nat
+  deriving DecidableEq, Repr
+
+structure SyncR where
+  st : RSR
+  cmds : List Cmd
+  fault : Option Fault
+  failed : Bool
+  deriving DecidableEq, Repr
+
+def syncUnitsR (u : Nat) : List Nat → RSR → Option Fault → SyncR
+  | [], st, f => ⟨st, [], f, false⟩
+  | i :: is, st, f =>
+    if sliceN st.cache (i * u) (i * u + u) ≠ sliceN st.belief (i * u) (i * u + u) ∨ i ∈ st.dirty then
+      match f with
+      | some ⟨0, late⟩ =>
+        if late then ⟨{ st with tag := writeAt st.tag (i * u) (sliceN st.cache (i * u) (i * u + u)),
+                                dirty := i :: st.dirty.filter (· ≠ i) },
+                      [(i * u, sliceN st.cache (i * u) (i * u + u))], none, true⟩
+        else ⟨{ st with dirty := i :: st.dirty.filter (· ≠ i) }, [], none, true⟩
+      | _ =>
+        let r := syncUnitsR u is
+          { tag := writeAt st.tag (i * u) (sliceN st.cache (i * u) (i * u + u)),
+            belief := writeAt st.belief (i * u) (sliceN st.cache (i * u) (i * u + u)),
+            cache := st.cache, dirty := st.dirty.filter (· ≠ i) }
+          (f.map fun x => ⟨x.k - 1, x.late⟩)
+        ⟨r.st, (i * u, sliceN st.cache (i * u) (i * u + u)) :: r.cmds, r.fault, r.failed⟩
+    else syncUnitsR u is st f
+
+def syncR (u : Nat) (st : RSR) (f : Option Fault) : SyncR :=
+  syncUnitsR u (List.range ((st.belief.length + u - 1) / u)) st f
+
+structure AttR where
+  st : RSR
+  cmds : List Cmd
+  res : Py Unit
+  deriving DecidableEq, Repr
+
+def writeFromR (c : Cfg) (L : Layout) (st : RSR) (data : Bytes) (f : Option Fault) : AttR :=
+  match phase1 c st.cache L.off with
+  | .error e => ⟨st, [], .error e⟩
+  | .ok m1 =>
+    let s1 := syncR c.unit { st with cache := m1 } f
+    if s1.failed then ⟨s1.st, s1.cmds, .error faultErr⟩ else
+    match phase2 c m1 L.off L.skip L.areaEnd data with
+    | .error e => ⟨s1.st, s1.cmds, .error e⟩
+    | .ok m2 =>
+      let s2 := syncR c.unit { s1.st with cache := m2 } s1.fault
+      if s2.failed then ⟨s2.st, s1.cmds ++ s2.cmds, .error faultErr⟩ else
+      match phase3a c m2 L.off data.length with
+      | .error e => ⟨s2.st, s1.cmds ++ s2.cmds, .error e⟩
+      | .ok m3a =>
+        let s3a := syncR c.unit { s2.st with cache := m3a } s2.fault
+        if s3a.failed then ⟨s3a.st, s1.cmds ++ s2.cmds ++ s3a.cmds, .error faultErr⟩ else
+        match phase3 c m3a L.off data.length with
+        | .error e => ⟨s3a.st, s1.cmds ++ s2.cmds ++ s3a.cmds, .error e⟩
+        | .ok m3 =>
+          let s3 := syncR c.unit { s3a.st with cache := m3 } s3a.fault
+          ⟨s3.st, s1.cmds ++ s2.cmds ++ s3a.cmds ++ s3.cmds, if s3.failed then .error faultErr else .ok ()⟩
+
+def attemptR (c : Cfg) (L : Layout) (st : RSR) (data : Bytes) (f : Option Fault) : AttR :=
+  if ¬ L.writeable then ⟨st, [], .error .attr⟩
+  else if (data.length : Int) > L.cap then ⟨st, [], .error .value⟩
+  else writeFromR c L st data f
+
+def freshR (m : Bytes) : RSR := ⟨m, m, m, []⟩
+
+def historyR (c : Cfg) (L : Layout) : RSR → List (Bytes × Option Fault) → RSR × List (List Cmd × Py Unit)
+  | st, [] => (st, [])
+  | st, (d, f) :: rest =>
+    let a := attemptR c L st d f
+    let r := historyR c L a.st rest
+    (r.1, (a.cmds, a.res) :: r.2)
+
 /-! ## what a fresh reader reports at the end of a history
 
 `Tlv.readNdef` transcribes the readers as they were before the repair "TLVs that exceed the data area are not
